@@ -334,6 +334,18 @@ pub fn c03(opts: &Opts, out: &mut Out) {
             check_batch(out, "C03", "transcripts-short", &all, k - 1, k, VerifyAction::VerifyOnly);
             check_batch(out, "C03", "proofs-long", &all, k, k + 1, VerifyAction::VerifyOnly);
             check_batch(out, "C03", "proofs-short", &all, k, k - 1, VerifyAction::VerifyOnly);
+            check_batch(out, "C03", "transcripts-long", &all, k + 1, k, VerifyAction::VerifyOnly);
+            // differences of whole chunks: the sequences agree chunk by chunk up to the end of the shorter one
+            if k % 256 == 0 || k % 256 == 1 {
+                let short = (k / 256) * 256;
+                for a in fmrun::ACTIONS {
+                    check_batch(out, "C03", "transcripts-one-chunk-more", &all[..short], short + 256, short, a);
+                    if k > short {
+                        check_batch(out, "C03", "transcripts-stop-at-chunk-end", &all[..short + 1], short, short + 1, a);
+                    }
+                    check_batch(out, "C03", "proofs-one-chunk-more", &all[..short], short, short + 256, a);
+                }
+            }
             shapes.insert((k, "length-mismatch", 0));
         }
     }
@@ -464,7 +476,7 @@ pub fn c03(opts: &Opts, out: &mut Out) {
     let nrand = random_batches(opts, out, &mut rng);
     out.stat("random_batches", nrand);
     out.case(format!("templates: {}", valid.iter().map(|t| t.desc()).collect::<Vec<_>>().join(" ")));
-    out.case(format!("sizes: {:?}; index classes 0,1,k/2,k-1,254..257,511,512; refusals: empty, length mismatch, other bits/degree/pedersen, promise out of range", sizes));
+    out.case(format!("sizes: {:?}; index classes 0,1,k/2,k-1,254..257,511,512; refusals: empty, length mismatch (by one, and by whole chunks at 256/257/512/513), other bits/degree/pedersen, promise out of range", sizes));
     out.stat("batches", nb);
     out.stat("distinct_classes", shapes.len());
 }
